@@ -205,11 +205,18 @@ countnz(const int_t n, int_t *xprune, int_t *nnzL, int_t *nnzU, GlobalLU_t *Glu)
  * storage for the adjancency lists of the pruned graph, and applies
  * row permuation to the row subscripts of matrix $L$.
  */
+static int fixupL_cmp(const void *a, const void *b)
+{
+    const int_t *x = (const int_t *) a, *y = (const int_t *) b;
+    return (x[0] < y[0]) ? -1 : (x[0] > y[0]);
+}
+
 void
 fixupL(const int_t n, const int_t *perm_r, GlobalLU_t *Glu)
 {
-    register int_t nsuper, fsupc, nextl, i, j, jstrt;
+    register int_t nsuper, fsupc, nextl, i, j, k, jstrt;
     register int_t *xsup, *xsup_end, *lsub, *xlsub, *xlsub_end;
+    int_t *order; /* (start in lsub[], supernode) pairs */
 
     if ( n <= 1 ) return;
 
@@ -220,11 +227,27 @@ fixupL(const int_t n, const int_t *perm_r, GlobalLU_t *Glu)
     xlsub_end = Glu->xlsub_end;
     nsuper    = Glu->supno[n];
     nextl     = 0;
+
+    /*
+     * With several threads the supernode numbers and the subscript
+     * storage are handed out in two separate critical sections, so the
+     * supernodes need not be stored in lsub[] in the order of their numbers.
+     * Compact them in the order in which they are stored; otherwise a
+     * list that has not yet been moved could be overwritten.
+     */
+    if ( !(order = intMalloc(2 * (nsuper + 1))) )
+	SUPERLU_ABORT("Malloc fails for order[].");
+    for (i = 0; i <= nsuper; i++) {
+	order[2*i] = xlsub[xsup[i]];
+	order[2*i+1] = i;
+    }
+    qsort(order, nsuper + 1, 2 * sizeof(int_t), fixupL_cmp);
     
     /* 
      * For each supernode ...
      */
-    for (i = 0; i <= nsuper; i++) {
+    for (k = 0; k <= nsuper; k++) {
+	i = order[2*k+1];
 	fsupc = xsup[i];
 	jstrt = xlsub[fsupc];
 	xlsub[fsupc] = nextl;
@@ -235,6 +258,7 @@ fixupL(const int_t n, const int_t *perm_r, GlobalLU_t *Glu)
 	xlsub_end[fsupc] = nextl;
     }
     xlsub[n] = nextl;
+    SUPERLU_FREE(order);
 
 #if ( PRNTlevel==1 )
     printf(".. # edges in supernodal graph of L = " IFMT "\n", nextl);
